@@ -43,7 +43,8 @@ InRange(ev) == MaxRefc(ev) <= (IF ev.f32 THEN 9 ELSE 25)
 PostOK(ev) ==
   /\ ev.o = "ok" /\ ev.len = ev.n /\ Len(ev.err_cb) = ev.n
   /\ \A c \in 1..Len(ev.rows) : Len(ev.rows[c]) >= 2
-  /\ (InRange(ev) => \A v \in 1..ev.n : ev.err_cb[v] <= TolPosterior(ev.f32))
+  \* "after at least graph-diameter iterations": rounds = message-passing rounds the decoder really ran (counted by the wrapper)
+  /\ ((InRange(ev) /\ ev.rounds >= ev.diam) => \A v \in 1..ev.n : ev.err_cb[v] <= TolPosterior(ev.f32))
 
 \* the built-in 8-bit decoders (factory-built, reused for three calls) return exactly what the textbook schedule
 \* composed with the exact integer rule set of Arith.tla returns (BP8.tla)
